@@ -1,0 +1,13 @@
+//go:build verif
+
+package mustache
+
+// VerifEvalHook, when set, is called before every template token is rendered
+// with the template instance.
+var VerifEvalHook func(instance *MustacheTemplate)
+
+func verifEvalHook(c *MustacheTemplate) {
+	if h := VerifEvalHook; h != nil {
+		h(c)
+	}
+}
